@@ -6,6 +6,7 @@ tree-sitter contract (DESIGN 5.2) that is decidable on a dump.
 import Driver.TreeIO
 import AstGrepVerif.Model.Nav
 import AstGrepVerif.Model.Position
+import AstGrepVerif.Model.ReplaceAll
 
 open Lean AGV
 
@@ -130,6 +131,15 @@ def opVisit (d : Document) (n : Tree) (a : Json) : Except String Json := do
   if algo == "post" then pure (tmJson (Post.visitFixed true re named m n))
   else pure (tmJson (Pre.visit re named m n))
 
+/-- `node.replace_all(KindMatcher(kind), "X")`: a kind matcher has no `get_match_len`, the text is `X` -/
+def opReplaceAll (d : Document) (n : Tree) (a : Json) : Except String Json := do
+  let _ := d
+  let kind ← getNat a "kind"
+  match replaceAll (fun t => t.kind == kind) (fun _ => none) (fun _ => [88]) n with
+  | .ok es => pure (Json.arr (es.map fun e => Json.arr #[jNat e.position, jNat e.deleted, jNat e.inserted.length]).toArray)
+  | .error .fuel => pure (Json.str "out-of-fuel")
+  | .error _ => pure (Json.str "panic")
+
 def posJson (d : Document) (n : Tree) : Json :=
   match Position.startPos d.src n, Position.endPos d.src n with
   | some (sl, sc), some (el, ec) => Json.arr #[jNat sl, jNat sc, jNat el, jNat ec]
@@ -146,6 +156,7 @@ def navigationOps : List (String × SHandler) := [
   ("nav_post", navOp fun _ n _ => pure (tmJson (Post.toList n))),
   ("nav_level", navOp fun _ n _ => pure (tmJson (Level.toList n))),
   ("nav_visit", navOp opVisit),
+  ("nav_replace_all", navOp opReplaceAll),
   ("nav_node", navOp fun d n _ => pure (Json.mkObj [
       ("parent", optIdJson (Nav.parent d.tree n)), ("children", idsJson (Nav.children n)),
       ("next", optIdJson (Nav.next d.tree n)), ("prev", optIdJson (Nav.prev d.tree n))])),
